@@ -210,6 +210,9 @@ class AsmWriter:
             self.print_registers()
         self.print_instructions()
         if self.entry.end_comment:
+            # In a block end comment, #PC is the address of the last
+            # instruction in the entry (which may be in a comment group)
+            self.pc = self.entry.instructions[-1].address or self.pc
             self.print_comment_lines(self.entry.end_comment, ignoreua=self.entry.ignoreua['e'])
 
     def write_line(self, s):
